@@ -2,6 +2,7 @@
 import time, os, json, glob
 from explore import Job, run_jobs, replay_with_monitor, impl_step, Disagreement, _masked_equal
 import c09lib as L
+import c09adapt
 from c09lib import (PortInst, MonitorOnlyInst, AxiSinglePartner, Env, AxlMaster, WbMaster, WbPartner, AxlPartner, CsrPartner, BridgeMonitor, AxiMaster,
                     AhbMaster)
 from migen import Module
@@ -436,6 +437,12 @@ def mk_adapter(master_kind, master_dw, bus_std, bus_dw, direction, pol, aw=32, t
         if k == "wb" else \
         (dict(dw=dw, aw=aw, idw=1) if k == "axi" else dict(dw=dw, aw=aw))
     # the widths of the interface the glue created are checked against the bus parameters the user asked for
+    if master_kind == "axi-lite" and bus_std == "wishbone" and direction == "m2s" and master_dw > bus_dw:
+        # chain with a Lean composite (Chain.machine = AXILiteDownConverter ; AXILite2Wishbone): every output of every
+        # cycle of the chain add_adapter built is compared with the composed model, monitors armed as well
+        lean_open = "chaindw %d %d %d %d %d %d 0" % (master_dw // bus_dw, snb, aw, aw, snb, log2(snb))
+        return PortInst(name, bus, lean_open, m_k, m_itf, s_k, s_itf, env=env, monitor=mon, m_par=par(m_k, m_dw),
+                        s_par=par(s_k, s_dw))
     return MonitorOnlyInst(name, bus, "unit", m_k, m_itf, s_k, s_itf, env=env, monitor=mon, m_par=par(m_k, m_dw),
                            s_par=par(s_k, s_dw))
 
@@ -567,7 +574,9 @@ def jobs(tier):
     for pol in ("accept-early", "respond-late"):
         B(lambda pol=pol: mk_wb2axi(32, 32, base=0x1000, pol=pol))
     B(lambda: mk_wb2axi(64, 32, base=0x2000, pol="fast"))
-    # ---- adapter chains inserted by SoCBusHandler.add_adapter (monitors only)
+    # ---- adapter chains inserted by SoCBusHandler.add_adapter: monitors; the wide-AXI-Lite -> Wishbone chains are also
+    #      co-simulated against the composed Lean machine (Chain.machine); the selection glue itself is compared with
+    #      the Lean function for ALL combinations in c09adapt.differential
     for g in ADAPTER_GRID:
         B(lambda g=g: mk_adapter(*g))
     # ---- Wishbone2AXILite
@@ -624,8 +633,21 @@ def corpus_run(ctx):
     return dis
 
 
+def adapter_args(combo):
+    """Arguments of `mk_adapter` for a combination of the selection-glue grid (None if it cannot be expressed)."""
+    std, dw, aw, ba, bstd, bdw, baw, m2s = combo
+    if aw != baw:
+        return None
+    kind = "wishbone-byte" if (std == "wishbone" and ba) else std
+    pol = "mixed" if (bstd == "wishbone" if m2s else std == "wishbone") else "fast"
+    return [kind, dw, bstd, bdw, "m2s" if m2s else "s2m", pol, aw]
+
+
 def correspond(ctx):
     dis = corpus_run(ctx)
+    # selection glue of SoCBusHandler.add_adapter and of the converter wrappers against the Lean function (all
+    # combinations of the grid), before the worker pool of the machine jobs is started
+    dis += c09adapt.differential(ctx)
     ctx.jobs = jobs(ctx.tier)
     d2, bad = run_jobs(ctx, ctx.jobs)
     # mode A has to reach the complete reachable product on the unchanged tree; an exploration that runs into the
@@ -667,7 +689,21 @@ def search(ctx, disagreements, proof_info):
     for d in disagreements:
         if getattr(d, "kind", "").startswith("monitor:"):
             return {"instance": d.inst_name, "trace": [list(l) for l in d.trace], "monitor": d.kind[8:],
-                    "letter_format": FMT}
+                    "letter_format": FMT, "combo": getattr(d, "combo", None)}
+    # a difference in the selection glue: drive the chain the real glue built for that combination, monitors armed
+    for d in disagreements:
+        args = adapter_args(d.combo) if getattr(d, "combo", None) else None
+        if args is None:
+            continue
+        try:
+            inst = mk_adapter(*args)
+            r = closed_loop_search(inst, ctx.rng, 4000)
+        except Exception as ex:
+            return {"instance": d.inst_name, "trace": [], "combo": d.combo, "letter_format": FMT,
+                    "monitor": "the chain add_adapter built cannot be elaborated / driven: %r" % (ex,)}
+        if r:
+            return {"instance": inst.name, "trace": [list(l) for l in r[0]], "monitor": r[1], "letter_format": FMT,
+                    "adapter_args": args}
     bad = [d.job for d in disagreements if getattr(d, "job", None) is not None]
     bad_names = {d.inst_name.split("/")[0] for d in disagreements if d.inst_name}
     order = sorted(range(len(all_jobs)), key=lambda j: (j not in bad,))
@@ -841,6 +877,31 @@ def replay(ctx, payload):
     fi = payload.get("failing_input") or {}
     name = fi.get("instance")
     trace = [tuple(l) for l in fi.get("trace", [])]
+    if fi.get("combo") and not trace:
+        import logging
+        logging.disable(logging.CRITICAL)
+        combo = tuple(fi["combo"])
+        try:
+            real = c09adapt.real_chain(combo)
+            msg = c09adapt.glue_oracle(combo, real)
+        except Exception as ex:
+            msg = "add_adapter raised %r" % (ex,)
+        if msg:
+            print("%s: %s" % (c09adapt.combo_name(combo), msg))
+            print("VIOLATION property=%s replay=(replayed)" % ctx.prop)
+            return 1
+        print("the combination no longer violates the property on the current tree")
+        return 0
+    if fi.get("adapter_args"):
+        inst = mk_adapter(*fi["adapter_args"])
+        inst.strict_env = False
+        r = replay_with_monitor(inst, trace)
+        if r:
+            print("cycle %d: %s" % r)
+            print("VIOLATION property=%s replay=(replayed)" % ctx.prop)
+            return 1
+        print("trace no longer violates the property on the current tree")
+        return 0
     if not name:
         print("replay file carries no failing input (no-failing-input-found); disagreements were:")
         for d in payload.get("disagreements", [])[:3]:
